@@ -6,7 +6,7 @@ import threading
 import time
 
 from vlib import schedfuzz, watch
-from vlib.targets import Boom, norm_exc
+from vlib.targets import Boom, CancelLike, ErrorList, norm_exc
 
 PROPERTY = 'C10'
 LEVEL = 'exploration'
@@ -37,6 +37,12 @@ def gen_cases(tier, seed):
                     for fa in fails:
                         cases.append({'forks': nf, 'window': w, 'length': length, 'fail_at': fa, 'slow_fork': rng.choice([None, 0, nf - 1]),
                                       'p': rng.choice([0.05, 0.15, 0.3]), 'seed': rng.randrange(1 << 30)})
+    # the source fails with a falsy exception object / with a class outside the Exception hierarchy
+    for fc in ('falsy', 'base'):
+        for nf in (2, 3):
+            for w in (2, 4):
+                for fa in (0, 1, 2 * w + 1):
+                    cases.append({'forks': nf, 'window': w, 'length': 2 * w + 1, 'fail_at': fa, 'slow_fork': None, 'fail_class': fc, 'p': 0.1, 'seed': rng.randrange(1 << 30)})
     # one fork (or the source) stalls for about a polling interval (the fork step polls the source lock every 0.1 s)
     for i in range(40 if tier == 'quick' else 800):
         w = rng.choice([2, 3])
@@ -87,6 +93,9 @@ def run_case(case):
     src_calls = {'n': 0, 'after_fail': 0, 'failed': False}
 
     stall = case.get('stall')
+    # the class the source fails with: the harness's Boom, a falsy exception object (collection-like error without entries), or a class
+    # outside the Exception hierarchy (framework cancellation, SystemExit ...)
+    fail_cls = {'falsy': lambda *a: ErrorList(), 'base': CancelLike}.get(case.get('fail_class'), Boom)
 
     def source():
         for i, x in enumerate(items):
@@ -94,12 +103,12 @@ def run_case(case):
                 time.sleep(stall[2])
             if fa is not None and i == fa:
                 src_calls['failed'] = True
-                raise Boom('src', i)
+                raise fail_cls('src', i)
             cnt.pull()
             yield x
         if fa is not None and fa >= n:
             src_calls['failed'] = True
-            raise Boom('src', fa)
+            raise fail_cls('src', fa)
 
     forks = T.tee(source(), nf, buffer_size=w)
     try:  # optional probe: occupancy of the shared window, sampled at every pull
@@ -143,7 +152,7 @@ def run_case(case):
                 k += 1
                 if p:
                     time.sleep(p)
-        except Exception as e:  # noqa: BLE001
+        except BaseException as e:  # noqa: BLE001  (the source may fail with a class outside the Exception hierarchy)
             term = ('RAISED', norm_exc(e))
         results[i] = (out, term)
 
@@ -177,7 +186,7 @@ def run_case(case):
                     return {'violations': viol, 'obs': {'runs': 1}, 'fuzz': fz.stats(), 'exit_after': True, 'nontrivial': True, 'sig': repr(case)}
                 return {'violations': [], 'obs': {'runs': 1}, 'inconclusive': 'forks still running after the bound, stacks changing', 'exit_after': True}
     exp_out = items if fa is None or fa >= n else items[:fa]
-    exp_term = ('END',) if fa is None else ('RAISED', norm_exc(Boom('src', fa)))
+    exp_term = ('END',) if fa is None else ('RAISED', norm_exc(fail_cls('src', fa)))
     for i, (out, term) in enumerate(results):
         if out != exp_out:
             viol.append({'mech': f'tee/fork-wrong-elements/{fk}', 'msg': f'fork {i} got {out!r}, source elements {exp_out!r} (forks={nf} window={w} fail_at={fa})'})
